@@ -1,3 +1,2 @@
 import PieModel.Props.C09
-open PieModel
-#print axioms C09_placeholder
+#print axioms PieModel.C09_placeholder
